@@ -640,3 +640,19 @@ func (u *Unit) logWrite(key string, sort Sort) {
 		*u.writeLog = append(*u.writeLog, writeRec{key: key, base: intLit(0), sort: sort})
 	}
 }
+
+// sidx is the position off+i in a slice's backing array. When the offset is
+// not the literal 0 it is wrapped in a function symbol with a defining
+// axiom, so that quantifier instantiation can match on it syntactically (the
+// solvers normalise nested sums, which hides off+i from E-matching).
+func (u *Unit) sidx(off, i T) T {
+	if off.S == "0" {
+		return i
+	}
+	if !u.declared["sidx"] {
+		u.declared["sidx"] = true
+		u.emitDecl("(declare-fun sidx (Int Int) Int)")
+		u.emitDecl("(assert (forall ((o Int) (k Int)) (! (= (sidx o k) (+ o k)) :pattern ((sidx o k)))))")
+	}
+	return app(SInt, "sidx", off, i)
+}
